@@ -383,7 +383,12 @@ func c06Tree(r gen.R, shape string, o ISOOpts) Tree {
 	if rr {
 		cfg.Symlinks = r.Intn(4)
 	}
-	return genTree(r, cfg)
+	t := genTree(r, cfg)
+	if rr || o.Joliet {
+		// names that only exact preservation gets right
+		t = append(t, TNode{Path: ".hidden", Size: 7, Seed: 901}, TNode{Path: "UPPER lower.Mixed", Size: 8, Seed: 902}, TNode{Path: "trailing.dot.", Size: 9, Seed: 903})
+	}
+	return t
 }
 
 // c06Facts are the structural facts of a tree that the cause predicates refer to.
